@@ -30,7 +30,8 @@ REQUIRED_BUCKETS = {"quick": ["iface:kernel", "iface:DirectModel", "iface:keywor
                               "dim:1d", "dim:2d", "multiplicity", "product", "array_distribution", "select:mask",
                               "select:qlimits", "select:nan", "refuse:misspelt", "refuse:foreign", "refuse:pd_suffix", "refuse:bad_attribute",
                               "dispersity-on-vector-element:1d", "refuse:repeated-on-one-object", "sasview:clone-edited",
-                              "product:intermediates-after-setting-change"]}
+                              "product:intermediates-after-setting-change", "keyword:Iqxy-with-two-widths",
+                              "sasview:clone-unedited", "sasview:table-then-ordinary-distribution", "sasview:second-object-of-class"]}
 REQUIRED_BUCKETS["thorough"] = REQUIRED_BUCKETS["quick"]
 
 STUBS = os.path.join(core.VERIF, "rtm", "stubs")
@@ -157,6 +158,23 @@ def run_agree(case, rec):
     okk = core.close(kw, kw_ref, 1e-12, 0.0)
     rec.check("interfaces_agree", okk, None if okk else {"model": name, "dim": dim, "interface": "keyword (cutoff 1e-5)",
                                                         "pars": up, "kernel": kw_ref, "other": kw})
+    if dim == "2d" and k % 2 == 1:
+        from sasmodels import data as sdata
+        dqx_ = np.abs(q[0])*0.08 + 0.002
+        dqy_ = np.abs(q[1])*0.21 + 0.004                   # different widths along the two axes
+        kwr = np.asarray(direct_model.Iqxy(name, q[0], q[1], dqx=dqx_, dqy=dqy_, **up), float)
+        d2 = sdata.Data2D(x=q[0], y=q[1], z=np.ones(len(q[0])), dx=dqx_, dy=dqy_, dz=np.ones(len(q[0])))
+        dmr = np.asarray(direct_model.DirectModel(d2, model)(**up), float)
+        okr = core.close(kwr, dmr, 1e-12, 0.0)
+        rec.check("interfaces_agree", okr, None if okr else {"model": name, "dim": dim, "pars": up,
+                                                            "interface": "Iqxy(dqx, dqy) vs DirectModel on Data2D(dx, dy)",
+                                                            "Iqxy": kwr, "DirectModel": dmr})
+        # and the widths matter / are told apart: swapping them gives another answer for an anisotropic request
+        dms = np.asarray(direct_model.DirectModel(
+            sdata.Data2D(x=q[0], y=q[1], z=np.ones(len(q[0])), dx=dqy_, dy=dqx_, dz=np.ones(len(q[0]))), model)(**up), float)
+        if not core.close(dms, dmr, 1e-6, 0.0):
+            rec.bucket("keyword:resolution-widths-distinguishable")
+        rec.bucket("keyword:Iqxy-with-two-widths")
     Model = sasview_model._make_standard_model(name)
     mult = int(pars[control[0]]) if control else None
     if control:
@@ -167,6 +185,33 @@ def run_agree(case, rec):
     spars = {kk: v for kk, v in pars.items() if kk not in control}
     res["sasview"], sv_obj = via_sasview(Model, spars, pd, q, cutoff, multiplicity=mult, array_for=arr)
     # a clone is its own object: changing the clone's dispersity settings leaves the original's theory alone
+    qq0_ = q[0] if len(q) == 1 else [q[0], q[1]]
+    if pd:
+        # a clone carries every setting of the original (distribution type included)
+        res["sasview clone, unedited"] = np.asarray(sv_obj.clone().evalDistribution(qq0_), float)
+        rec.bucket("sasview:clone-unedited")
+    if arr:
+        # the tabulated distribution replaced by an ordinary one on the same object
+        from sasmodels import weights as sasweights
+        t_, n_pts, w_, ns_ = pd[arr]
+        disp2 = sasweights.MODELS[t_]()
+        sv_obj.set_dispersion(arr, disp2)
+        # (other settings than the table was built from, so that a surviving table shows)
+        w2_, n2_ = 0.6*w_, n_pts + 2
+        sv_obj.setParam(arr + ".width", w2_)
+        sv_obj.setParam(arr + ".npts", n2_)
+        sv_obj.setParam(arr + ".nsigmas", ns_)
+        got_t = np.asarray(sv_obj.evalDistribution(qq0_), float)
+        up_t = dict(up, **{arr + "_pd": w2_, arr + "_pd_n": n2_})
+        ref_t = np.asarray(direct_model.call_kernel(kern, up_t, cutoff=cutoff), float)
+        okt = core.close(got_t, ref_t, 1e-12, 1e-14*float(np.nanmax(np.abs(ref_t)) if np.any(np.isfinite(ref_t)) else 1.0))
+        rec.check("interfaces_agree", okt,
+                  None if okt else {"model": name, "dim": dim, "interface": "sasview after a tabulated distribution on %s was replaced by %s" % (arr, t_),
+                                    "kernel": ref_t, "other": got_t})
+        # back to the request's own settings for the steps below
+        sv_obj.setParam(arr + ".width", w_)
+        sv_obj.setParam(arr + ".npts", n_pts)
+        rec.bucket("sasview:table-then-ordinary-distribution")
     pdn = [n_ for n_ in pd if n_ != arr]
     if pdn:
         twin = sv_obj.clone()
@@ -177,6 +222,19 @@ def run_agree(case, rec):
         twin.evalDistribution(qq_)
         res["sasview original after its clone was edited"] = np.asarray(sv_obj.evalDistribution(qq_), float)
         rec.bucket("sasview:clone-edited")
+    if pd:
+        fresh_obj = Model(mult) if mult is not None else Model()
+        for kname, v in spars.items():
+            if kname in fresh_obj.params:
+                fresh_obj.setParam(kname, v)
+        fresh_obj.cutoff = cutoff
+        mono_ref = np.asarray(direct_model.call_kernel(kern, dict(pars), cutoff=cutoff), float)
+        other = np.asarray(fresh_obj.evalDistribution(qq0_), float)
+        okm = core.close(other, mono_ref, 1e-12, 1e-14*float(np.nanmax(np.abs(mono_ref)) if np.any(np.isfinite(mono_ref)) else 1.0))
+        rec.check("interfaces_agree", okm,
+                  None if okm else {"model": name, "dim": dim, "interface": "second SasView object of the same class, no dispersity set on it",
+                                    "kernel_monodisperse": mono_ref, "other": other, "first_object_dispersity": pd})
+        rec.bucket("sasview:second-object-of-class")
     bm = bumps_model.Model(model, **up)
     res["bumps"] = np.asarray(bumps_model.Experiment(data_for(dim, q), bm, cutoff=cutoff).theory(), float)
     ref = res["kernel"]
@@ -370,9 +428,15 @@ def run_refuse(case, rec):
                                                           % (attempt + 1), returned=repr(out)[:200]))
         except (TypeError, ValueError, KeyError):
             rec.check("unknown_name_refused", True)
+    i_ = sas.info(name)
+    first_par = [p_.name for p_ in i_.parameters.call_parameters if p_.name not in ("scale", "background")]
+    try:
+        calc(scale=2.5, background=0.3, **({first_par[0]: i_.parameters[first_par[0]].default*1.1} if first_par else {}))
+    except Exception:
+        pass
     again = np.asarray(calc(), float)
     rec.check("interfaces_agree", bool(np.array_equal(good, again)),
-              dict(ctx, interface="DirectModel good call after refused calls", first=good, again=again))
+              dict(ctx, interface="DirectModel default call after refused calls and a call with other keywords", first=good, again=again))
     rec.bucket("refuse:repeated-on-one-object")
     rec.set_shape(("refuse", name, kind, bad), True)
 
